@@ -1,15 +1,20 @@
 #!/bin/bash
-# Runs each kept seeded change against its own property's quick check and records which sub-properties fire.
+# usage: tools/seed_matrix.sh [seed-id ...]
+# Runs each kept seeded change (all, or the ones named) against its own property's quick check and records which
+# sub-properties fire in seeded/RESULTS.tsv (rows of changes that are not re-run are kept).
 cd /verif
 out=seeded/RESULTS.tsv
-echo -e "seed\tproperty\trc\tcaught_by" > $out
-for d in seeded/C*-m*; do
-  s=$(basename $d); id=${s%-*}
-  cd /repo; git apply /verif/$d/patch.diff || { echo "$s: patch failed"; continue; }
-  cd /verif
-  ./check $id quick > /tmp/matrix.out 2>&1; rc=$?
-  subs=$(grep '^VIOLATION' /tmp/matrix.out | sed 's#.*/\([^/]*\)--.*#\1#' | sort -u | tr '\n' ',' | sed 's/,$//')
-  [ $rc -eq 2 ] && subs="$subs INCONCLUSIVE:$(grep '^INCONCLUSIVE' /tmp/matrix.out | head -1)"
+[ -f $out ] || echo -e "seed\tproperty\trc\tcaught_by" > $out
+if [ $# -gt 0 ]; then list="$@"; else list=$(ls -d seeded/C*-m* | xargs -n1 basename); fi
+for s in $list; do
+  d=seeded/$s; id=${s%-*}
+  if [ -n "$(git -C /repo status --porcelain)" ]; then echo "/repo is not clean"; exit 2; fi
+  git -C /repo apply /verif/$d/patch.diff || { echo "$s: patch failed"; continue; }
+  VERIF_SEED=${VERIF_SEED:-1} ./check $id quick > .work/matrix.out 2>&1; rc=$?
+  subs=$(grep '^VIOLATION' .work/matrix.out | sed 's#.*/\([^/]*\)--.*#\1#' | sort -u | tr '\n' ',' | sed 's/,$//')
+  [ $rc -eq 2 ] && subs="$subs INCONCLUSIVE:$(grep '^INCONCLUSIVE' .work/matrix.out | head -1)"
+  grep -v "^$s	" $out > $out.tmp; mv $out.tmp $out
   echo -e "$s\t$id\t$rc\t$subs" | tee -a $out
   git -C /repo checkout -- . ; git -C /repo clean -fdq
 done
+(head -1 $out; tail -n +2 $out | sort) > $out.tmp; mv $out.tmp $out
